@@ -336,12 +336,15 @@ class Checker:
                 if all(T.shape[0] == T.shape[1] and np.allclose(T, np.eye(T.shape[0])) for T in mT):
                     part.count("identity_result_as_Argument")
                     return None
-            if isinstance(obj, ufl.Coefficient) and len(slots) == 1:
+            if isinstance(obj, ufl.core.expr.Expr) and not isinstance(obj, ufl.Argument) and len(slots) == 1:
                 # documented in map_integrands: simplification may turn a base form into an Expr (element of
                 # the primal space seen as a functional on the dual space)
-                vecs = [self.I.operand(obj, env) for env in self.envs]
-                if all(s_ == slots and np.allclose(np.asarray(T_), mt_) for (s_, T_), mt_ in zip(vecs, mT)):
-                    part.count("primal_result_as_Coefficient")
+                try:
+                    vecs = [self.I.expr_vector(obj, env) for env in self.envs]
+                except MD.ModelGap:
+                    vecs = None
+                if vecs and all(s_ == slots and np.allclose(np.asarray(T_), mt_) for (s_, T_), mt_ in zip(vecs, mT)):
+                    part.count("primal_result_as_Expr")
                     return None
             self.violation(part, "tensor", r, "not-a-base-form", f"result is a {type(obj).__name__}, not a BaseForm", {"got": repr(obj)[:500]})
             return None
@@ -392,6 +395,7 @@ class Checker:
                 elif got_args != exp_args and atoms_of(r) & {"v0", "v1", "w0", "w1"}:
                     # which number the slot left open by an identity Argument carries is not determined
                     part.count("numbering_undetermined_identity_argument")
+                    lost_args = True  # checked, but not used as an operand of deeper compositions
                 elif got_args != exp_args:
                     bad = True
                     self.violation(part, "arguments", r, "numbering", f"arguments() = {got_args}, canonical numbering gives {exp_args}",
@@ -480,7 +484,7 @@ class Checker:
             if isinstance(e, FATAL):
                 raise
             h = None
-        digest = hashlib.sha1(np.round(mT[1], 6).tobytes()).hexdigest()[:12]
+        digest = hashlib.sha1((np.round(mT[1], 6) + (0.0 + 0.0j)).tobytes()).hexdigest()[:12]  # (+0: no -0.0)
         part.outcome((type(obj).__name__, slots, nontrivial))
         return (r, typ, key, nontrivial, type(obj).__name__, h, digest)
 
@@ -672,6 +676,9 @@ def eq_check(states, U, run):
                         raise
                     eq = False
                 if eq:
+                    ta, tb = (np.asarray(MD.meval(st_[0], MD.make_env(True)).T) for st_ in (sa, sb))
+                    if ta.shape == tb.shape and np.allclose(ta, tb, rtol=0, atol=1e-9):
+                        continue
                     run.violation(
                         f"tensor:{show(sa[0])} == {show(sb[0])} #eq",
                         "two results compare equal (==) but denote different maps",
@@ -752,10 +759,11 @@ def main(argv):
         lvl2_core = [st for st in lvl2 if st[0] in core2]
         run.bounds["level3_base_states"] = len(lvl2_core)
         for st in lvl2_core:
-            cands += ty.unary(st[0], st[1], ["2", "0", "k"], variables)
+            cands += ty.unary(st[0], st[1], ["2", "0", "k"], ["f", "u"])
             for y, tyy in l3_atoms:
                 cands += ty.binary(st[0], st[1], y, tyy, WPAIRS[1:2], ops=("add", "Act", "act", "fs2"))
-                cands += ty.binary(y, tyy, st[0], st[1], WPAIRS[1:2], ops=("sub", "Act", "act"))
+                if tyy[0] != "coef":
+                    cands += ty.binary(y, tyy, st[0], st[1], WPAIRS[1:2], ops=("sub", "Act", "act"))
         cands = sorted(set(cands), key=repr)
         run.bounds["level3_candidates_well_typed"] = len(cands)
         lvl3 = dedup(run_level(cands, U, run, sample_every=20000), seen, run)
@@ -763,8 +771,8 @@ def main(argv):
         all_states += lvl3
         comb += (
             "; level 3 (comb) over the level-2 states built from a level-1 state and an atom or by a unary op: "
-            "unary ops (scalars 2,0,k); state+atom, atom-state, FormSum((state,2),(atom,-1)), "
-            "Action/action(state, atom) and (atom, state) for atoms " + ",".join(L3_ATOMS)
+            "unary ops (scalars 2,0,k; derivative variables f,u); state+atom, atom-state, FormSum((state,2),(atom,-1)), "
+            "Action/action(state, atom) and (base-form atom, state) for atoms " + ",".join(L3_ATOMS)
         )
     eq_check(all_states, U, run)
     run.bounds.update(
